@@ -4830,6 +4830,28 @@ def _no_script_repr():
         yield npr.RandomState
 
 
+def float_script_repr(value,imports,prefix,settings):
+    # the repr of a non-finite float (inf, -inf, nan) is a bare word that
+    # cannot be evaluated
+    if value != value or value in (float('inf'), float('-inf')):
+        return "float('%r')" % value
+    return repr(value)
+
+
+def dict_script_repr(value,imports,prefix,settings):
+    # like repr(), but every key and value goes through pprint (repr()
+    # would print non-finite floats as bare words)
+    items = [pprint(k,imports,prefix,settings)+': '+pprint(v,imports,prefix,settings)
+             for k, v in value.items()]
+    return '{'+', '.join(items)+'}'
+
+
+def set_script_repr(value,imports,prefix,settings):
+    if not value:
+        return 'set()'
+    return '{'+', '.join(pprint(i,imports,prefix,settings) for i in value)+'}'
+
+
 def function_script_repr(fn,imports,prefix,settings):
     name = fn.__name__
     module = fn.__module__
@@ -4844,6 +4866,9 @@ def type_script_repr(type_,imports,prefix,settings):
 
 script_repr_reg[list] = container_script_repr
 script_repr_reg[tuple] = container_script_repr
+script_repr_reg[float] = float_script_repr
+script_repr_reg[dict] = dict_script_repr
+script_repr_reg[set] = set_script_repr
 script_repr_reg[FunctionType] = function_script_repr
 
 
